@@ -573,3 +573,34 @@ Ltac ci_leaf_ts RT Hbt :=
   | let acc := fresh "acc" in intros f s acc; destruct_tuple acc; rewrite Hbt; reflexivity
   | try assumption
   | exact Hsz ].
+
+(** ** Children the dispatch skips ([skip_box]) *)
+Definition ci_skip {Acc} (size code : N) (pl : bytes) : citem Acc := mkCitem size code pl (fun a => a) 0%nat.
+
+Lemma run_skip_box {A} m s pl rest (k : unit -> prog A) d l p :
+  lenN pl + 8 = s -> p + s < 2 ^ 63 ->
+  run (bind (skip_box m s) k) (mkStream d l (p + 8) (pl ++ rest)) = run (k tt) (mkStream d l (p + s) rest).
+Proof.
+  intros Hl Hp. unfold skip_box. rewrite bind_bind, run_box_start.
+  rewrite bind_bind, run_add64_ok by (unfold U64; lia).
+  rewrite run_seek_to_fwd by lia.
+  replace (p + s - (p + 8)) with (lenN pl) by lia. now rewrite dropN_app.
+Qed.
+
+Lemma ci_ok_skip {Acc Inv} (dispatch : nat -> boxtype -> N -> Acc -> prog Acc) m size code pl :
+  lenN pl + 8 = size -> size < U32 -> code < U32 ->
+  (forall f s acc, dispatch f (boxtype_of_u32 code) s acc = bind (skip_box m s) (fun _ => Ret acc)) ->
+  ci_ok_g Inv dispatch (ci_skip size code pl).
+Proof.
+  intros Hl Hs Hc Hd. unfold ci_ok_g, ci_skip. cbn [ci_size ci_code ci_pl ci_upd ci_need].
+  repeat split; auto.
+  intros f acc d l p rest _ Hp _. rewrite Hd. now rewrite run_skip_box by assumption.
+Qed.
+
+(** a seek backwards re-reads the data *)
+Lemma run_seek_to_back {A} (k : unit -> prog A) d l p v q :
+  q < p -> run (bind (seek_to q) k) (mkStream d l p v) = run (k tt) (mkStream d l q (dropN q d)).
+Proof.
+  intros H. unfold seek_to. cbn [bind run]. unfold seek_abs. cbn [s_pos s_data s_len s_view].
+  apply N.leb_gt in H. now rewrite H.
+Qed.
